@@ -282,6 +282,45 @@ def c19(cx):
         shown = [c for c in b0.tealer_comments if c.startswith('block_id')]
         if b0.cost != want or not shown or f"cost = {want}" not in shown[0]:
             cx.violations.append({'kind': 'block-cost', 'program': src, 'prop': 'C19', 'field': 'cost', 'where': 'B0', 'detail': f"block cost {b0.cost} (comment {shown}), sum of opcode costs for v{v} is {want}", 'src': src, 'env': None})
+    # the same through a group configuration whose `version:` entry disagrees with the program's own declaration: the declared
+    # `#pragma version` (1 when absent) decides, in Teal.version, in the cost of the contract's blocks and of the function's copies
+    import tempfile, shutil, logging
+    from tealer.utils.command_line.common import init_tealer_from_config
+    from tealer.utils.command_line.group_config import (GroupConfig, GroupConfigContract, GroupConfigFunction, GroupConfigFunctionCall,
+                                                        GroupConfigGroup, GroupConfigTransaction)
+    stats['config_version_cases'] = 0
+    wd = tempfile.mkdtemp(prefix='c19cfg_')
+    try:
+        for k in range(24 if cx.quick() else 240):
+            v = rng.choice([None, 1, 2, 4, 5, 6, 7, 8])
+            cfgv = rng.choice([x for x in range(1, 9) if x != (v or 1)])
+            body = [rng.choice(costed) for _ in range(rng.randrange(2, 10))]
+            src = (f"#pragma version {v}\n" if v else "") + "\n".join(body) + "\nint 1\nreturn\n"
+            path = os.path.join(wd, f"c{k}.teal"); open(path, 'w').write(src)
+            cfg = GroupConfig(name="c19", contracts=[GroupConfigContract(name="c", file_path=path, contract_type="LogicSig", version=cfgv, subroutines=[],
+                                                                           functions=[GroupConfigFunction(name="main", dispatch_path=["B0"])])],
+                              groups=[GroupConfigGroup(operation="op", transactions=[GroupConfigTransaction(txn_id="T", txn_type="pay",
+                                                       logic_sig=GroupConfigFunctionCall(contract="c", function="main"))])])
+            try:
+                logging.disable(logging.CRITICAL)
+                tealer, _, _ = quiet(init_tealer_from_config, cfg)
+            except BaseException:
+                continue
+            finally:
+                logging.disable(logging.NOTSET)
+            stats['config_version_cases'] += 1
+            teal = list(tealer.contracts.values())[0]
+            dv = v or 1
+            want = sum(prow[l][dv - 1] for l in body) + (1 if v else 0) + sum(prow.get(l, [1] * 8)[dv - 1] for l in ("int 1", "return"))
+            fb = [b for b in list(teal.functions.values())[0].blocks if b.idx == 0]
+            shown = [c for b in fb for c in b.tealer_comments if c.startswith('block_id')]
+            got = (teal.version, teal.bbs[0].cost, [b.cost for b in fb])
+            if teal.version != dv or teal.bbs[0].cost != want or any(b.cost != want for b in fb) or any(f"cost = {want}" not in c for c in shown):
+                cx.violations.append({'kind': 'config-version', 'program': src, 'prop': 'C19', 'field': 'cost', 'where': f"group configuration says version {cfgv}",
+                                      'detail': f"declared version {dv} (configuration: {cfgv}): Teal.version / block cost / function-copy costs are {got}, comments {shown}; "
+                                                f"the declared version gives cost {want}", 'src': src, 'env': None})
+    finally:
+        shutil.rmtree(wd, ignore_errors=True)
     # failing-input search for the table obligation C19_costs: the sample whose cost under some declared version differs from
     # the specification table (Spec/CostTable.lean)
     spec_costs = {}
